@@ -340,6 +340,7 @@ macro_rules! by_tracked_sid {
             9 => $f::<FH>($($a),*), 10 => $f::<FB>($($a),*),
             11 => $f::<GV>($($a),*), 12 => $f::<GD>($($a),*), 13 => $f::<GT>($($a),*),
             14 => $f::<GH>($($a),*), 15 => $f::<GB>($($a),*),
+            16 => $f::<FZ>($($a),*), 17 => $f::<GZ>($($a),*),
             _ => panic!("not a tracked storage"),
         }
     };
